@@ -42,6 +42,15 @@ fn other_atom(len: usize, rng: &mut StdRng) -> Vec<u8> {
         _ => panic!("unexpected atom length {}", len),
     }
 }
+/// a RELATED valid atom: the negation of a group element (sign bit of the compressed form) / of a scalar
+pub fn negated_atom(orig: &[u8]) -> Option<Vec<u8>> {
+    match orig.len() {
+        32 => indep::sc(orig).map(|s| (-s).to_bytes().to_vec()),
+        48 => indep::g1(orig).map(|p| (-p).to_compressed().to_vec()),
+        96 => indep::g2(orig).map(|p| (-p).to_compressed().to_vec()),
+        _ => None,
+    }
+}
 fn contains(hay: &[u8], needle: &[u8]) -> bool {
     hay.windows(needle.len()).any(|w| w == needle)
 }
@@ -58,7 +67,14 @@ fn challenge_of<T: ChallengeInput>(x: &T) -> (Vec<u8>, Scalar) {
 fn atoms_bound<T: Serialize + DeserializeOwned + ChallengeInput>(ty: &str, obj: &T, rng: &mut StdRng, out: &mut Vec<Value>, max_atoms: usize) {
     let tree = Tree::of(obj);
     let (tr0, c0) = challenge_of(obj);
-    out.push(json!({"ev": "hash", "type": ty, "challenge_is_sha3": indep::challenge_of_transcript(&tr0) == c0, "transcript_len": tr0.len()}));
+    // the two documented ways of feeding an input (`with` / `with_bytes`: "conveniently chainable variants" of `consume` /
+    // `consume_bytes`) derive the same challenge
+    let c_consume = { let mut b = ChallengeBuilder::new(); b.consume(obj); b.finish().to_scalar() };
+    let c_mixed = { let mut b = ChallengeBuilder::new().with_bytes(b"prefix"); b.consume(obj); b.consume_bytes(b"suffix"); b.finish().to_scalar() };
+    let c_mixed2 = { let mut b = ChallengeBuilder::new(); b.consume_bytes(b"prefix"); b.with(obj).with_bytes(b"suffix").finish().to_scalar() };
+    let _ = take_challenge_log();
+    out.push(json!({"ev": "hash", "type": ty, "challenge_is_sha3": indep::challenge_of_transcript(&tr0) == c0, "transcript_len": tr0.len(),
+                    "with_eq_consume": c_consume == c0 && c_mixed == c_mixed2}));
     let atoms: Vec<_> = tree.atoms().cloned().collect();
     let step = (atoms.len() / max_atoms.max(1)).max(1);
     for (i, l) in atoms.iter().enumerate() {
@@ -70,10 +86,20 @@ fn atoms_bound<T: Serialize + DeserializeOwned + ChallengeInput>(ty: &str, obj: 
         let mut b = tree.bytes.clone();
         let new = other_atom(l.len, rng);
         b[l.off..l.off + l.len].copy_from_slice(&new);
-        let (dec, changed) = match bincode::deserialize::<T>(&b) {
+        let (dec, mut changed) = match bincode::deserialize::<T>(&b) {
             Ok(o) => (true, challenge_of(&o).1 != c0),
             Err(_) => (false, false),
         };
+        // ... and by a RELATED atom (its negation: same x-coordinate / same absolute value)
+        if let Some(neg) = negated_atom(&tree.bytes[l.off..l.off + l.len]) {
+            if neg != tree.bytes[l.off..l.off + l.len] {
+                let mut b2 = tree.bytes.clone();
+                b2[l.off..l.off + l.len].copy_from_slice(&neg);
+                if let Ok(o) = bincode::deserialize::<T>(&b2) {
+                    changed = changed && challenge_of(&o).1 != c0;
+                }
+            }
+        }
         out.push(json!({"ev": "atom", "type": ty, "path": l.path, "role": if response { "response" } else { "nonresponse" },
                         "in_transcript": contains(&tr0, &tree.bytes[l.off..l.off + l.len]), "changed": changed, "decodes": dec}));
     }
@@ -229,6 +255,24 @@ impl GameEnv {
             let acc = m.initialize(&mut rng, &cid, cb, mb, p, &Context::new(&c2)).is_some();
             let c1 = take_challenge_log().into_iter().last().map(|v| v.1);
             out.push(json!({"ev": "ctxbyte", "proof": "establish", "pos": pos, "changed": c1 != c0, "accepted": acc}));
+        }
+        // many different contexts (lengths 0..40, structured and random bytes): the verifier's challenges for one
+        // recorded proof are pairwise different - no class of contexts is identified
+        {
+            let mut seen = std::collections::HashSet::new();
+            let k = if thorough { 400usize } else { 96 };
+            for i in 0..k {
+                let cbytes: Vec<u8> = match i % 3 {
+                    0 => format!("zkAbacus session transcript #{:03}", i).into_bytes(),
+                    1 => { let mut b = vec![0u8; i % 41]; rng.fill_bytes(&mut b); b.push(i as u8); b.push((i >> 8) as u8); b }
+                    _ => { let mut b = vec![0u8; 32]; rng.fill_bytes(&mut b); b }
+                };
+                let p: EstablishProof = bincode::deserialize(&bytes).unwrap();
+                let _ = take_challenge_log();
+                let _ = m.initialize(&mut rng, &cid, cb, mb, p, &Context::new(&cbytes));
+                if let Some(c) = take_challenge_log().into_iter().last() { seen.insert(c.1); }
+            }
+            out.push(json!({"ev": "ctxset", "proof": "establish", "contexts": k, "distinct_challenges": seen.len()}));
         }
         // pay
         let info = self.honest_ready(100, 50, &[]);
@@ -403,6 +447,29 @@ impl GameEnv {
         }
         push(est("context", "empty".into(), false, m, &cid, cbv, mbv, &Context::new(b""), &mut rng));
         push(est("context", "extended".into(), false, m, &cid, cbv, mbv, &Context::new(b"context of the establish session!"), &mut rng));
+
+        // a context of another length, and the context that is its SHA3-256 digest (a verifier that treats a
+        // 32-byte input as "already hashed" identifies the two)
+        {
+            use sha3::{Digest, Sha3_256};
+            let t2 = b"a session context of 31 bytes !";
+            let ctx2 = Context::new(t2);
+            let (_r2, proof2) = zkabacus_crypto::customer::Requested::new(&mut rng, &cfg, cid, mb, cb, &ctx2);
+            let bytes2 = bincode::serialize(&proof2).unwrap();
+            let mut run2 = |ctx: &Context, rng: &mut StdRng| -> (bool, Option<String>) {
+                let p: EstablishProof = bincode::deserialize(&bytes2).unwrap();
+                let _ = take_challenge_log();
+                let acc = m.initialize(rng, &cid, cb, mb, p, ctx).is_some();
+                (acc, take_challenge_log().into_iter().last().map(|v| crate::util::hex(&v.1)))
+            };
+            let (a0, c0b) = run2(&ctx2, &mut rng);
+            out.push(json!({"ev": "tuple", "proof": "establish", "component": "none", "variant": "original (31-byte context)", "in_equation": false, "accepted": a0, "challenge_changed": false}));
+            let dig = Sha3_256::digest(&t2[..]);
+            for (name, c) in [("SHA3-256 digest of the context bytes", Context::new(dig.as_ref())), ("context padded to 32 bytes", Context::new(b"a session context of 31 bytes !\0"))] {
+                let (a, cc) = run2(&c, &mut rng);
+                out.push(json!({"ev": "tuple", "proof": "establish", "component": "context", "variant": name, "in_equation": false, "accepted": a, "challenge_changed": cc != c0b}));
+            }
+        }
 
         // ---- pay
         let info = self.honest_ready(100, 50, &[]);
